@@ -329,7 +329,7 @@ func summarizeCol(table *Table, col benchproc.Key, s *TableSummary, nBase int, i
 	// is the same as the total number of baselines, then we know
 	// the benchmark sets match. Otherwise, they don't and these
 	// numbers are probably misleading.
-	if !isBase && nBase != len(ratios) {
+	if !isBase && (nBase != len(ratios) || nBase != len(summaries)) {
 		s.Warnings = append(s.Warnings, fmt.Errorf("benchmark set differs from baseline; geomeans may not be comparable"))
 	}
 
